@@ -93,6 +93,13 @@ func run(c *hc.Ctx) error {
 			return err
 		}
 	}
+	// ---- 3a. reused objects behave like fresh ones (decode targets, output buffers)
+	for i := c.N(150, 5000); i > 0; i-- {
+		c04shared.ReuseCase(c, &q, "C04")
+		if err := q.MaybeFlush(c); err != nil {
+			return err
+		}
+	}
 	// ---- 3b. the compression-threshold path: mtproto.Conn.newEncryptedMessage picks Message / GZIP / raw
 	for i := c.N(1200, 40000); i > 0; i-- {
 		thresholdCase(c, &q, &rt)
